@@ -257,13 +257,14 @@ theorem int_cast_accepts_iff {F : Type} (ops : FloatOps F) (s : Str) (n : Int) :
     (`str` exactly for strings, a bare-printed name exactly for numbers), the text `on_relay` inlines for `Enum.Member.value`,
     read back (decimal text or literal token, optionally in parentheses; text between double quotes; a float as Python's `str(x)` or a
     token `float()` reads as `x`), denotes `v'` with the same type — for every expression, environment, fuel and interpretation of
-    `float`. No guard on the expression (since 61fd1e4 a string literal as whole value goes through the evaluator as well). -/
+    `float`. No guard on the expression (since 61fd1e4 a string literal as whole value goes through the evaluator as well); one on
+    the VALUE: a string value contains no double quote (`hq`; relay/literalize.j2 prints the content raw, `quote_in_value_counterexample`). -/
 theorem output_agree {F : Type} (ops : FloatOps F) (env : Env) (fuel : Nat) (mem : Member) (ti : TyInfo) (venv : VEnv F)
     (v' : V F) (text : Str)
-    (hty : mem.ty = .ok ti) (hfit : ti.fits v')
+    (hty : mem.ty = .ok ti) (hfit : ti.fits v') (hq : ∀ c, v' = .str c → c.contains '"' = false)
     (hc : Cons .py ops env venv) (hp : evalPy .py ops env.known venv (toPy mem.value) = .ok v')
     (he : emitValue ops env fuel mem = .ok text) : Denotes ops text v' := by
-  have h := emit_core .py ops env (fun _ => True) (fun _ _ => trivial) (fun _ => trivial) fuel mem ti venv v' hty hfit hc hp
+  have h := emit_core .py ops env (fun _ => True) (fun _ _ => trivial) (fun _ => trivial) fuel mem ti venv v' hty hfit hq hc hp
   rw [he] at h
   exact h
 
@@ -287,10 +288,10 @@ example :
 /-- **output_sound**: … and when `on_relay` fails instead, it is a refusal (an application error that is not a wrapped Python
     exception: OperationNotAllowed, UnresolvedSymbol, an error of type inference, the recursion limit) — with `0X…` literals cut out. -/
 theorem output_sound {F : Type} (ops : FloatOps F) (env : Env) (fuel : Nat) (mem : Member) (ti : TyInfo) (venv : VEnv F) (v' : V F)
-    (hty : mem.ty = .ok ti) (hfit : ti.fits v')
+    (hty : mem.ty = .ok ti) (hfit : ti.fits v') (hq : ∀ c, v' = .str c → c.contains '"' = false)
     (hc : Cons .strict ops env venv) (hp : evalPy .strict ops env.known venv (toPy mem.value) = .ok v') :
     (∃ text, emitValue ops env fuel mem = .ok text ∧ Denotes ops text v') ∨ (∃ er, emitValue ops env fuel mem = .error er ∧ Refusal er) := by
-  have h := emit_core .strict ops env Refusal (fun _ h => h) (by intro h; cases h) fuel mem ti venv v' hty hfit hc hp
+  have h := emit_core .strict ops env Refusal (fun _ h => h) (by intro h; cases h) fuel mem ti venv v' hty hfit hq hc hp
   cases hx : emitValue ops env fuel mem with
   | ok text => rw [hx] at h; exact Or.inl ⟨text, rfl, h⟩
   | error er => rw [hx] at h; exact Or.inr ⟨er, rfl, h⟩
@@ -299,6 +300,32 @@ theorem output_sound {F : Type} (ops : FloatOps F) (env : Env) (fuel : Nat) (mem
 example :
     emitValue freeOps ⟨[], []⟩ 9 ⟨.chain ['o','n','_','t','e','r','m'] (.string ['\'','a','\'']) [(['*'], .integer ['2'])], .ok ⟨['s'], true⟩⟩
       = .error .notAllowed := by
+  decide
+
+/-- `output_agree` without the guard on double quotes in a string value -/
+def output_agree_unguarded_statement : Prop :=
+  ∀ (ops : FloatOps FTerm) (env : Env) (fuel : Nat) (mem : Member) (ti : TyInfo) (venv : VEnv FTerm) (v' : V FTerm) (text : Str),
+    mem.ty = .ok ti → ti.fits v' → Cons .py ops env venv → evalPy .py ops env.known venv (toPy mem.value) = .ok v' →
+    emitValue ops env fuel mem = .ok text → Denotes ops text v'
+
+/-- … is false on the current code (finding `output-unescaped-double-quote`): the enum value `'say "hi"'` (also `"x" + 'say "hi"'`,
+    where `_cat` keeps the left quote — the CONTENT `xsay "hi"` is right, `agree`) is inlined as `"say "hi""`, which is not one
+    C++ string literal. The single quote of `'a' + "it's"` is harmless: `"ait's"`. -/
+theorem quote_in_value_counterexample : ¬ output_agree_unguarded_statement := by
+  intro h
+  have := h freeOps ⟨[], []⟩ 5 ⟨.string ['\'','s','a','y',' ','"','h','i','"','\''], .ok ⟨['s'], true⟩⟩ ⟨['s'], true⟩ [] (.str ['s','a','y',' ','"','h','i','"'])
+    ['"','s','a','y',' ','"','h','i','"','"'] rfl ⟨rfl, by decide⟩ Cons.nil (by decide) (by decide)
+  have h2 := (denotes_str_inv freeOps this).2
+  revert h2
+  decide
+
+/-- the mixed-quote joins: `'a' + "it's"` folds to the token `'ait's'` whose content (`[1:-1]`) is CPython's `ait's`, and is
+    inlined as `"ait's"` (`agree` / `catSafe_decodes` hold for every pair of quote characters: `Quoted` allows different ones). -/
+example :
+    let e : Expr := .chain ['o','n','_','s','u','m'] (.string ['\'','a','\'']) [(['+'], .string ['"','i','t','\'','s','"'])]
+    execImpl freeOps ⟨[], []⟩ 5 e = .ok (.str ['\'','a','i','t','\'','s','\''])
+    ∧ evalPy .py freeOps [] [] (toPy e) = .ok (.str ['a','i','t','\'','s'])
+    ∧ emitValue freeOps ⟨[], []⟩ 5 ⟨e, .ok ⟨['s'], true⟩⟩ = .ok ['"','a','i','t','\'','s','"'] := by
   decide
 
 /-- regression of 61fd1e4 (former `lone_literal_counterexample`): a string literal as the WHOLE enum value goes through the
